@@ -112,17 +112,36 @@ def _gen(fam, rng, allow_slow, depth):
         v = rng.pick(SIMPLE)
         return {"family": fam, "variant": v, "F": rng.pick([2, 3, 4]), "hw": [2, 2], "momentum": rng.pick([0.1, 0.5])}
     if fam == "container":
-        v = rng.pick(["composite", "inverse", "multiscale", "composite"])
+        v = rng.pick(["composite", "inverse", "multiscale", "composite", "chain", "chain"])
         if v == "inverse":
-            inner = _gen(rng.pick(["coupling", "autoreg", "linear", "simple"]), rng, False, depth + 1)
+            inner = _gen(rng.pick(["coupling", "autoreg", "linear", "simple", "nonlin"]), rng, False, depth + 1)
             return {"family": fam, "variant": v, "inner": inner}
+        if v == "chain":
+            # a CompositeTransform of arbitrary zoo members (2-D, no context, same feature count) whose
+            # input/output domains chain: nested versions of everything, incl. learned temperatures
+            F = rng.pick([2, 3])
+            parts, dom = [], "real"
+            for _ in range(rng.pick([2, 3, 4])):
+                for _try in range(20):
+                    sub = _gen(rng.pick(["coupling", "autoreg", "linear", "simple", "nonlin", "nonlin"]), rng, False, depth + 1)
+                    sub = _force_2d(sub, F)
+                    if sub is None:
+                        continue
+                    fd, od = domains(sub)
+                    if fd == dom and od in ("real", "unit"):
+                        parts.append(sub)
+                        dom = od
+                        break
+            if not parts:
+                parts = [_force_2d(_gen("linear", rng, False, depth + 1), F)]
+            return {"family": fam, "variant": v, "F": F, "parts": parts}
         if v == "multiscale":
             d = rng.pick([2, 4])
             return {"family": fam, "variant": v, "F": 8 if d == 2 else 4, "dims": d, "hw": [2, 1], "net": _net(rng)}
         F = rng.pick([2, 3, 4])
         parts = []
         for _ in range(rng.pick([2, 3, 3])):
-            k = rng.pick(["perm", "lu", "affine_coupling", "maf", "actnorm", "batchnorm", "prq", "leaky"])
+            k = rng.pick(["perm", "lu", "affine_coupling", "maf", "actnorm", "batchnorm", "prq", "leaky", "squash"])
             parts.append(k)
         return {"family": fam, "variant": v, "F": F, "parts": parts, "net": _net(rng)}
     if fam == "dist":
@@ -139,12 +158,71 @@ def _gen(fam, rng, allow_slow, depth):
             s["random_masks"] = rng.chance(0.6)
         if v == "Flow":
             s.update(ctx=rng.pick([0, 2]), embed=rng.chance(0.5), base=rng.pick(["normal", "condnormal", "normal"]),
-                     parts=[rng.pick(["perm", "lu", "affine_coupling", "maf", "actnorm", "prq", "svd"]) for _ in range(rng.pick([1, 2, 3]))],
+                     parts=[rng.pick(["perm", "lu", "affine_coupling", "maf", "actnorm", "prq", "svd", "squash"]) for _ in range(rng.pick([1, 2, 3]))],
                      net=_net(rng))
             if s["base"] == "condnormal" and not s["ctx"]:
                 s["ctx"] = 2
         return s
     raise HarnessError(fam)
+
+
+def _force_2d(sub, F):
+    """Make a generated sub-spec a 2-D, context-free transform on F features (or None if impossible)."""
+    fam, v = sub["family"], sub.get("variant")
+    if fam == "coupling":
+        if F < 2:
+            return None
+        sub.update(F=F, dims=2, ctx=0)
+        sub.pop("hw", None)
+        return sub
+    if fam == "autoreg":
+        sub.update(F=F, ctx=0)
+        return sub
+    if fam == "linear":
+        if v == "Conv":
+            sub["variant"] = "LU"
+        sub["F"] = F
+        sub["K"] = 2 if sub["variant"] == "SVD" else min(sub.get("K", 2), 2 * F - 1 if sub.get("K", 2) % 2 else 2 * F)
+        return sub
+    if fam == "nonlin":
+        if v == "GLU":
+            return None
+        sub.update(F=F, dims=2)
+        return sub
+    if fam == "simple":
+        if v in ("Squeeze", "ActNorm4"):
+            return None
+        sub["F"] = F
+        return sub
+    return None
+
+
+def domains(spec):
+    """(input domain of forward, output domain of forward) of a transform spec, without building it."""
+    fam, v = spec["family"], spec.get("variant")
+    if fam == "coupling":
+        d = "unit" if (v in ("plinear", "pquadratic", "pcubic", "prq") and not spec.get("tails")) else "real"
+        return d, d
+    if fam == "autoreg":
+        if v in ("plinear", "pcubic"):
+            return "unit", "unit"
+        if v in ("pquadratic", "prq") and not spec.get("tails"):
+            return "unit", "unit"
+        return "real", "real"
+    if fam == "nonlin":
+        if v in ("Sigmoid", "SigmoidLearned", "CauchyCDF"):
+            return "real", "unit"
+        if v == "Logit":
+            return "unit", "real"
+        if v == "Tanh":
+            return "real", "tanh"
+        if v == "Exp":
+            return "real", "pos"
+        if v in ("PLCDF", "PQCDF", "PCCDF", "PRQCDF"):
+            d = "real" if spec.get("tails") else "unit"
+            return d, d
+        return "real", "real"
+    return "real", "real"
 
 
 def label(spec):
@@ -381,6 +459,10 @@ def _build(spec):
             ms.add_transform(T.PointwiseAffineTransform(shift=0.1, scale=1.5), s2)
             return Entry(ms, "transform", (F,))
         F = spec["F"]
+        if v == "chain":
+            built = [_build(sub) for sub in spec["parts"]]
+            return Entry(T.CompositeTransform([b.obj for b in built]), "transform", (F,), fdom=built[0].fdom,
+                         idom=domains(spec["parts"][-1])[1], slow=any(b.slow for b in built))
         parts = [_part(k, F, spec["net"]) for k in spec["parts"]]
         return Entry(T.CompositeTransform(parts), "transform", (F,))
     if fam == "dist":
@@ -466,6 +548,11 @@ def _part(kind, F, net, ctx=0):
         return T.PiecewiseRationalQuadraticCouplingTransform(_mask("mid", F), _resnet_fn(net, ctx), num_bins=3, tails="linear", tail_bound=2.0)
     if kind == "leaky":
         return T.LeakyReLU(negative_slope=0.2)
+    if kind == "squash":
+        # real -> (0,1) with a LEARNED temperature -> real again through a fixed-temperature logit
+        from nflows.transforms import nonlinearities as NL
+
+        return T.CompositeTransform([NL.Sigmoid(temperature=1.5, learn_temperature=True), NL.Logit(temperature=1.0)])
     raise HarnessError(kind)
 
 
